@@ -1,0 +1,206 @@
+//go:build verif
+
+package term
+
+import (
+	"bytes"
+	"os"
+	"sync"
+	"syscall"
+
+	"git.sr.ht/~rockorager/vaxis"
+	"git.sr.ht/~rockorager/vaxis/ansi"
+)
+
+// Hooks for runtime verification (build tag verif): a Model without a child
+// process or PTY, a feed entry point running the package's own update path,
+// and a read-only snapshot of its state.
+
+type verifState struct {
+	r *os.File // read end of the pipe standing in for the PTY
+}
+
+var (
+	verifMu     sync.Mutex
+	verifStates = map[*Model]*verifState{}
+)
+
+// VerifNew returns a Model of the given size whose PTY is the write end of a
+// pipe: what the emulator writes towards the child is collected with
+// VerifTakeReplies
+func VerifNew(w, h int) (*Model, error) {
+	m := New()
+	r, wr, err := os.Pipe()
+	if err != nil {
+		return nil, err
+	}
+	if err := syscall.SetNonblock(int(r.Fd()), true); err != nil {
+		return nil, err
+	}
+	m.pty = wr
+	m.resize(w, h)
+	verifMu.Lock()
+	verifStates[m] = &verifState{r: r}
+	verifMu.Unlock()
+	return m, nil
+}
+
+// VerifFree releases the pipe of a Model created by VerifNew
+func VerifFree(m *Model) {
+	verifMu.Lock()
+	st := verifStates[m]
+	delete(verifStates, m)
+	verifMu.Unlock()
+	if st != nil {
+		st.r.Close()
+		m.pty.Close()
+	}
+}
+
+// VerifTakeReplies returns the bytes written towards the child since the last
+// call
+func VerifTakeReplies(m *Model) []byte {
+	verifMu.Lock()
+	st := verifStates[m]
+	verifMu.Unlock()
+	if st == nil {
+		return nil
+	}
+	var out []byte
+	buf := make([]byte, 4096)
+	for {
+		n, err := syscall.Read(int(st.r.Fd()), buf)
+		if n > 0 {
+			out = append(out, buf[:n]...)
+		}
+		if err != nil || n <= 0 {
+			return out
+		}
+	}
+}
+
+// VerifSetPTY replaces the file the Model writes to
+func VerifSetPTY(m *Model, f *os.File) {
+	m.mu.Lock()
+	m.pty = f
+	m.mu.Unlock()
+}
+
+// VerifResize resizes the Model without touching the (absent) PTY
+func VerifResize(m *Model, w, h int) {
+	m.mu.Lock()
+	defer m.mu.Unlock()
+	m.resize(w, h)
+}
+
+// VerifFeed parses data with a real ansi.Parser and runs the package's own
+// update on every sequence, draining raised events after each one (as the PTY
+// goroutine does between sequences). after, if not nil, is called after every
+// sequence
+func VerifFeed(m *Model, data []byte, after func(seq ansi.Sequence)) {
+	parser := ansi.NewParser(bytes.NewReader(data))
+	m.parser = parser
+	done := false
+	defer func() {
+		if !done {
+			// update panicked: let the parser goroutine run to its end
+			go func() {
+				for range parser.Next() {
+				}
+			}()
+		}
+	}()
+	for seq := range parser.Next() {
+		if _, ok := seq.(ansi.EOF); ok {
+			continue
+		}
+		m.update(seq)
+	drain:
+		for {
+			select {
+			case ev := <-m.events:
+				m.mu.Lock()
+				fn := m.eventHandler
+				m.mu.Unlock()
+				fn(ev)
+			default:
+				break drain
+			}
+		}
+		if after != nil {
+			after(seq)
+		}
+	}
+	done = true
+}
+
+// VerifCell is one cell of a snapshot
+type VerifCell struct {
+	Grapheme string
+	Width    int
+	Style    vaxis.Style
+	Wrapped  bool
+}
+
+// VerifModes are the modes of a snapshot
+type VerifModes struct {
+	IRM, LNM, DECCKM, DECOM, DECAWM, DECTCEM, DECKPAM, SMCUP, Paste bool
+	MouseButtons, MouseDrag, MouseMotion, MouseSGR, AltScroll        bool
+}
+
+// VerifSnap is a read-only copy of the emulator state
+type VerifSnap struct {
+	Cols, Rows           int
+	RowLens              []int
+	Cells                [][]VerifCell
+	CursorRow, CursorCol int
+	CursorStyle          vaxis.CursorStyle
+	LastCol              bool
+	Top, Bottom          int
+	Left, Right          int
+	TabStops             []int
+	Modes                VerifModes
+	Pen                  vaxis.Style
+	Focused              bool
+}
+
+// VerifSnapshot copies the state of the Model. cells=false skips the grid
+func VerifSnapshot(m *Model, cells bool) VerifSnap {
+	m.mu.Lock()
+	defer m.mu.Unlock()
+	s := VerifSnap{
+		Cols: m.cols, Rows: len(m.activeScreen),
+		CursorRow: int(m.cursor.row), CursorCol: int(m.cursor.col),
+		CursorStyle: m.cursor.style,
+		LastCol:     m.lastCol,
+		Top:         int(m.margin.top), Bottom: int(m.margin.bottom),
+		Left: int(m.margin.left), Right: int(m.margin.right),
+		Pen:     m.cursor.Style,
+		Focused: atomicLoad(&m.focused),
+		Modes: VerifModes{
+			IRM: m.mode.irm, LNM: m.mode.lnm, DECCKM: m.mode.decckm, DECOM: m.mode.decom,
+			DECAWM: m.mode.decawm, DECTCEM: m.mode.dectcem, DECKPAM: m.mode.deckpam,
+			SMCUP: m.mode.smcup, Paste: m.mode.paste,
+			MouseButtons: m.mode.mouseButtons, MouseDrag: m.mode.mouseDrag,
+			MouseMotion: m.mode.mouseMotion, MouseSGR: m.mode.mouseSGR, AltScroll: m.mode.altScroll,
+		},
+	}
+	s.Cols = m.width()
+	for _, ts := range m.tabStop {
+		s.TabStops = append(s.TabStops, int(ts))
+	}
+	s.RowLens = make([]int, len(m.activeScreen))
+	for r := range m.activeScreen {
+		s.RowLens[r] = len(m.activeScreen[r])
+	}
+	if cells {
+		s.Cells = make([][]VerifCell, len(m.activeScreen))
+		for r := range m.activeScreen {
+			s.Cells[r] = make([]VerifCell, len(m.activeScreen[r]))
+			for c, cl := range m.activeScreen[r] {
+				s.Cells[r][c] = VerifCell{Grapheme: cl.Grapheme, Width: cl.Width, Style: cl.Style, Wrapped: cl.wrapped}
+			}
+		}
+	}
+	return s
+}
